@@ -306,6 +306,19 @@ def gen_case(rng, fmt: Optional[str] = None, thumb: Optional[str] = None, max_si
         'thumb_inject': rng.random() < 0.6,
         'save_minor': None,
     }
+    if rng.random() < 0.08:
+        # a texture that holds resources / a particle sheet, written as 7.2 (which cannot carry them): by the object's own
+        # version or by the version argument of save().  The image and the header fields must still round-trip.
+        case['resources'] = case['resources'] or gen_resources(rng) or [[{'known': 'CRC'}, 2, 12345]]
+        if rng.random() < 0.5:
+            case['sheet'] = case['sheet'] or gen_sheet(rng)
+        if rng.random() < 0.5:
+            case['minor'] = 2
+        else:
+            case['minor'] = max(case['minor'], 3)
+            case['save_minor'] = 2
+        case['legacy_with_resources'] = True
+        return case
     if rng.random() < 0.12:
         # explicit version argument of save(); resources/sheet/depth stay within what that version carries
         cand = [m for m in (2, 3, 4, 5) if m != minor]
